@@ -104,7 +104,7 @@ CLAIMED = {
          "DESIGN.md section 5 C19"),
  "C20": ("exploration",
          "runtime monitor in child processes (RLIMIT_AS 4 GiB, one decode at a time): process liveness, recovered panics, allocation accounting (runtime/metrics heap allocs, confirmed by an exact second decode) and outcome class for systematically mutated well-formed response frames through protocol.ReadResponse and through kafka.Client over the fake network",
-         "For every response type and version (reference-encoded with a field map where a schema exists, library-encoded otherwise) every length/count field - frame size, string/bytes/array lengths fixed and compact, tagged-field counts and sizes, record-set size, batch length, message size, wrapper value length, record count and varint lengths - is set (alone, and for the large values also together with a frame size announcing 2^30 bytes while only the original bytes arrive) to -1, -2, 0, len-1, len+1, remaining+1, 2^15-1, 2^31-1, -2^31 and for varints 2^31, 2^32, 2^63, 2^64-1 and an unterminated varint; the decode must end as an error or a message, without panic or process death, allocating at most 1 MiB + 64 x frame length. CRC-covered fields with a recomputed CRC are informational.",
+         "For every response type and version (reference-encoded with a field map where a schema exists, library-encoded otherwise) every length/count field - frame size, string/bytes/array lengths fixed and compact, tagged-field counts and sizes, record-set size, batch length, message size, wrapper value length, record count and varint lengths - is set (alone, and for the large values also together with a frame size announcing 2^30 bytes while only the original bytes arrive) to -1, -2, 0, len-1, len+1, remaining+1, 2^15-1, 2^31-1, -2^31 and for varints 2^31, 2^32, 2^63, 2^64-1 and an unterminated varint; the decode must end as an error or a message, without panic or process death, allocating at most 1 MiB + 256 x the bytes received (one received byte may announce one array element, which is decoded into a Go struct of up to ~200 bytes). CRC-covered fields with a recomputed CRC are informational.",
          "trusted: allocation figures of the Go runtime in a single-threaded child; a first-run excess not reproduced by the immediate exact re-decode (cold pools) is not reported; decodes that do not return within 10 s are inconclusive",
          "DESIGN.md section 5 C20"),
 }
